@@ -65,7 +65,8 @@ def oracle(gene, copies, real, perm_texts=None):
     exp = []
     for ma, mi, added in copies:
         nm = ma.split("#")[0]
-        fn = sorted((p, o) for p, o in added if gene.is_functional((p, o), False))
+        # the order inside a name is by RefSeq position (the same name whatever strand the build uses)
+        fn = sorted(((p, o) for p, o in added if gene.is_functional((p, o), False)), key=lambda m: (gene.chr_to_ref.get(m[0], m[0]), m[1]))
         exp.append("+".join([nm] + [gene.get_rsid((p, o)) for p, o in fn]))
     exp += [dele] * placeholders
     if shown != sorted(exp):
@@ -129,7 +130,7 @@ def gen_copies(r, gene, n):
 def wire(gene, copies):
     return {"op": "diplotype",
             "copies": [{"major": ma, "added": [{"pos": p, "op": o, "rsid": gene.mutations[(p, o)][1] if (p, o) in gene.mutations else "-",
-                                                  "functional": bool(gene.is_functional((p, o), False))} for p, o in added]} for ma, mi, added in copies],
+                                                  "functional": bool(gene.is_functional((p, o), False)), "ref_pos": gene.chr_to_ref.get(p, p)} for p, o in added]} for ma, mi, added in copies],
             "del": gene.deletion_allele(), "tandems": [[str(a), str(b)] for a, b in gene.common_tandems]}
 
 
